@@ -330,9 +330,14 @@ def build_world(case):
     if hedger.inputs.of(deriv, hedger).is_state_dependent() != stepwise_expected(fm):
         raise HarnessError(f"C14: feature mode {fm} does not select the intended evaluation mode")
     w.mo_net, w.model, w.criterion = mo_net, model, crit
-    if crit_name.startswith("isoelastic"):
+    def fix_endowment():
+        """(isoelastic only) endowment such that the terminal wealth is >= 2 on every path at the current parameters"""
+        if not crit_name.startswith("isoelastic"):
+            return
+        endowment["value"] = 0.0
         worst_pl = 0.0
         with torch.no_grad():
+            w.sim.calls = 0
             for _ in range(w.n_times):
                 deriv.simulate(n_paths=N)
                 v = float(hedger.compute_pl(deriv, hedge=hedge).min())
@@ -340,6 +345,9 @@ def build_world(case):
                     worst_pl = min(worst_pl, v)
         w.sim.calls = 0
         endowment["value"] = float(math.ceil(max(0.0, -worst_pl))) + 2.0
+
+    w.fix_endowment = fix_endowment
+    fix_endowment()
     params = [("model." + n, p) for n, p in model.named_parameters() if p.requires_grad]
     if mo_net is not None:
         params += [("module_output." + n, p) for n, p in mo_net.named_parameters()]
@@ -426,6 +434,69 @@ def tolerances(case, g_scale, fmax, level, path_sens=0.0):
     return agree, acc
 
 
+HISTORIES = {
+    # operations run on the SAME hedger before the gradient is taken (the evaluation-only ones must not change
+    # any requires_grad flag; none may change the gradient of the later loss at the then-current parameters)
+    "price": ["price"],
+    "evals": ["compute_pl", "compute_portfolio", "loss_nograd"],
+    "fit": ["fit"],
+    "price_fit_price": ["price", "fit", "price"],
+}
+
+
+def _all_params(w):
+    out = [("model." + n, p) for n, p in w.model.named_parameters()]
+    if w.mo_net is not None:
+        out += [("module_output." + n, p) for n, p in w.mo_net.named_parameters()]
+    out += [("criterion." + n, p) for n, p in w.criterion.named_parameters()]
+    return out
+
+
+def _grad(loss, tensors):
+    """torch.autograd.grad over the tensors that (still) require grad; None for the others."""
+    live = [t for t in tensors if t.requires_grad]
+    got = iter(torch.autograd.grad(loss, live, allow_unused=True)) if live else iter(())
+    return [next(got) if t.requires_grad else None for t in tensors]
+
+
+def run_history(ctx, w, case, mini):
+    """The operation history of the configuration, on the hedger whose gradient is examined afterwards."""
+    hedger = w.hedger
+    for op in HISTORIES[case["history"]]:
+        flags = [(n, bool(p.requires_grad)) for n, p in _all_params(w)]
+        w.sim.calls = 0
+        if op == "price":
+            if not hasattr(w.criterion, "cash"):
+                continue
+            try:
+                hedger.price(w.derivative, hedge=w.hedge, n_paths=w.N)
+            except ValueError:
+                ctx.add("price_raised_value_error", 1)      # default cash() bisection bracket: C06's business
+        elif op == "compute_pl":
+            with torch.no_grad():
+                w.derivative.simulate(n_paths=w.N)
+                hedger.compute_pl(w.derivative, hedge=w.hedge)
+        elif op == "compute_portfolio":
+            with torch.no_grad():
+                w.derivative.simulate(n_paths=w.N)
+                hedger.compute_portfolio(w.derivative, hedge=w.hedge)
+        elif op == "loss_nograd":
+            hedger.compute_loss(w.derivative, hedge=w.hedge, n_paths=w.N, n_times=2, enable_grad=False)
+        elif op == "fit":
+            trainable = [p for _, p in w.params]
+            hedger.fit(w.derivative, hedge=w.hedge, n_epochs=2, n_paths=w.N, n_times=1, verbose=False,
+                       optimizer=torch.optim.SGD(trainable, lr=0.03125))
+        else:
+            raise KeyError(op)
+        after = [(n, bool(p.requires_grad)) for n, p in _all_params(w)]
+        changed = [n for (n, a), (_, b) in zip(flags, after) if a != b]
+        if changed:
+            ctx.violation("Hedger." + ("compute_loss" if op == "loss_nograd" else op), f"requires_grad_changed_by:{op}",
+                          f"{op} changed requires_grad of {changed} (criterion={case['criterion']}, model={case['model']}, fm={case['fm']})",
+                          observed=changed, expected=[], block=mini)
+    w.sim.calls = 0
+
+
 @family
 def grad_fd(ctx, block):
     cases = block["cases"]
@@ -435,6 +506,9 @@ def grad_fd(ctx, block):
         # back-propagated gradient of the real loss (ensemble mean over n_times scripted batches), with the
         # hedger in the module mode the configuration names: nothing here has dropout / batch-norm, so the
         # gradient must not depend on it
+        if case.get("history"):
+            run_history(ctx, w, case, {"cases": [case]})
+            w.fix_endowment()
         hedger.train() if w.mode == "train" else hedger.eval()
         w.sim.calls = 0
         loss = hedger.compute_loss(w.derivative, hedge=w.hedge, n_paths=w.N, n_times=w.n_times)
@@ -459,7 +533,7 @@ def grad_fd(ctx, block):
             ctx.add("ww_cells_clamp_active", w.ww_stats["active"])
             ctx.add("ww_cells_clamp_inactive", w.ww_stats["inactive"])
         tensors = [p for _, p in w.params]
-        grads = torch.autograd.grad(loss, tensors, allow_unused=True)
+        grads = _grad(loss, tensors)
         g_ad = []
         unused = []
         for (n, p), g in zip(w.params, grads):
@@ -564,7 +638,7 @@ def grad_fd(ctx, block):
             ctx.violation(site, "default_loss_has_no_graph:after_earlier_evaluations", "compute_loss() after gradient-free evaluations on the same hedger carries no graph",
                           observed=False, expected=True, block=mini)
         else:
-            grads2 = torch.autograd.grad(loss2, tensors, allow_unused=True)
+            grads2 = _grad(loss2, tensors)
             g2 = []
             for (n_, p_), g_ in zip(w.params, grads2):
                 g2 += [0.0] * p_.numel() if g_ is None else g_.reshape(-1).tolist()
@@ -600,6 +674,8 @@ def _kind(case):
         k.append("ensemble")
     if case.get("mode", "train") == "eval":
         k.append("eval_mode")
+    if case.get("history"):
+        k.append("after_" + case["history"])
     return "/".join(k)
 
 
@@ -615,6 +691,137 @@ def _one_sided(f, params, name, j, h):
         fm = f()
         flat[j] = x0
     return (f0 - fm) / (x0 - (x0 - h)), (fp - f0) / ((x0 + h) - x0)
+
+
+def _lazy_world(case):
+    """Scripted market + a hedger whose model is a LAZY pfhedge MultiLayerPerceptron (first layer not materialised
+    until the first forward).  Built under the seed of the case; materialisation draws the initial weights from
+    torch's generator at the first call, so two worlds built and first-called under the same seed are identical."""
+    import pfhedge.instruments as I
+    from pfhedge.features import ModuleOutput
+    from pfhedge.nn import Hedger, MultiLayerPerceptron
+    f64 = torch.float64
+    spot = path_set(case["paths"])
+    N, T = spot.shape
+    stock = market.primary("brownian", dtype=f64, cost=0.01, dt=DT, sigma=0.25)
+    deriv = market.derivative("european", stock, T=T, dt=DT, strike=1.0)
+    sim = market.ScriptedSimulate(stock, [{"spot": spot}], cycle=True)
+    H = case["H"]
+    hedge = None
+    if H == 2:
+        listed = I.EuropeanOption(stock, strike=1.1, maturity=(T - 1) * DT)
+        listed.list(lambda d: torch.nn.functional.relu(d.ul().spot - 1.1) + 0.25 * d.ul().spot.square(), cost=0.02)
+        hedge = [stock, listed]
+    torch.manual_seed(18000 + case["k"])
+    layers, units = case["arch"]
+    kw = {} if case["arch"] == [4, 32] else {"n_layers": layers, "n_units": units}
+    if case["arch"] != [4, 32] or H != 1:
+        kw["out_features"] = H
+    model = MultiLayerPerceptron(**kw) if kw else MultiLayerPerceptron()      # the library default when possible
+    fm = case["fm"]
+    mo = None
+    if fm == "vec":
+        inputs = ["log_moneyness", "time_to_maturity"]
+    elif fm == "prev":
+        inputs = ["log_moneyness", "time_to_maturity", "prev_hedge"]
+    elif fm == "mo_lazy":
+        mo = MultiLayerPerceptron(n_layers=1, n_units=3)          # a lazy network inside a ModuleOutput feature as well
+        inputs = ["log_moneyness", "time_to_maturity", ModuleOutput(mo, ["log_moneyness", "prev_hedge"])]
+    else:
+        raise KeyError(fm)
+    crit = make_criterion(case["criterion"])
+    hedger = Hedger(model, inputs, criterion=crit)
+    w = World()
+    w.hedger, w.derivative, w.hedge, w.N, w.sim, w.model, w.mo_net, w.criterion = hedger, deriv, hedge, N, sim, model, mo, crit
+    return w
+
+
+@family
+def lazy_first_call(ctx, block):
+    """The FIRST call on a lazy model is the differentiated one: seed, build, compute_loss().backward().  Reference:
+    the same seed and build, materialised by a gradient-free warm-up evaluation first (same draws, hence the same
+    initial weights - checked), then the same loss differentiated; and a third world whose already materialised
+    networks received those weights by load_state_dict.  All three gradients must be bitwise equal."""
+    from pfhedge.nn import MultiLayerPerceptron
+    d0 = torch.get_default_dtype()
+    torch.set_default_dtype(torch.float64)
+    try:
+        for case in block["cases"]:
+            mini = {"cases": [case]}
+            site = "Hedger.compute_loss"
+
+            def grads_of(w):
+                w.sim.calls = 0
+                loss = w.hedger.compute_loss(w.derivative, hedge=w.hedge, n_paths=w.N)
+                if not loss.requires_grad:
+                    return loss, None
+                for _, p in _all_params(w):
+                    p.grad = None
+                loss.backward()
+                return loss, {n: (None if p.grad is None else p.grad.clone()) for n, p in _all_params(w)}
+
+            # A: first call differentiated
+            wa = _lazy_world(case)
+            lazy_before = any(isinstance(p, torch.nn.parameter.UninitializedParameter) for _, p in _all_params(wa))
+            if not lazy_before:
+                raise HarnessError("C14: the lazy model is not lazy")
+            try:
+                loss_a, ga = grads_of(wa)
+            except RuntimeError as e:
+                ctx.violation(site, f"lazy_first_call_raises:{case['fm']}", f"differentiating the first loss of a lazy model raised: {str(e)[:160]}",
+                              observed=str(e)[:200], expected="a gradient", block=mini)
+                ctx.tick(1)
+                continue
+            # B: warm-up without gradients first
+            wb = _lazy_world(case)
+            wb.sim.calls = 0
+            wb.hedger.compute_loss(wb.derivative, hedge=wb.hedge, n_paths=wb.N, enable_grad=False)
+            pa = {n: p.detach().clone() for n, p in _all_params(wa)}
+            pb = {n: p.detach().clone() for n, p in _all_params(wb)}
+            if set(pa) != set(pb) or any(not torch.equal(pa[n], pb[n]) for n in pa):
+                raise HarnessError("C14: the two materialisation orders drew different initial weights")
+            loss_b, gb = grads_of(wb)
+            # C: materialised networks that received the weights
+            wc = _lazy_world(dict(case))
+            F_in = wb.model[0].in_features
+            layers, units = case["arch"]
+            mat = MultiLayerPerceptron(F_in, case["H"], n_layers=layers, n_units=units)
+            mat.load_state_dict(wb.model.state_dict())
+            wc.hedger.model = mat
+            wc.model = mat
+            if wc.mo_net is not None:
+                m2 = MultiLayerPerceptron(wb.mo_net[0].in_features, 1, n_layers=1, n_units=3)
+                m2.load_state_dict(wb.mo_net.state_dict())
+                wc.hedger.inputs.features[-1].module = m2
+                wc.mo_net = m2
+            loss_c, gc = grads_of(wc)
+            n = 0
+            if ga is None:
+                ctx.violation(site, f"lazy_first_call_no_graph:{case['fm']}", "the first loss of a lazy model carries no graph",
+                              observed=False, expected=True, block=mini)
+                ctx.tick(1)
+                continue
+            for ref_name, lref, gref in (("after a gradient-free warm-up", loss_b, gb), ("materialised copy", loss_c, gc)):
+                if float(loss_a) != float(lref):
+                    ctx.violation(site, "lazy_first_call_value", f"the first loss of a lazy model differs from the loss {ref_name}",
+                                  observed=float(loss_a), expected=float(lref), block=mini)
+                for name in ga:
+                    n += 1
+                    a, b = ga[name], gref[name]
+                    same = (a is None and b is None) or (a is not None and b is not None and torch.equal(a, b))
+                    if not same:
+                        err = None if a is None or b is None else float((a - b).abs().max())
+                        ctx.violation(site, f"lazy_first_call_gradient:{case['fm']}",
+                                      f"gradient of the FIRST loss of a lazy model w.r.t. {name} differs from the gradient {ref_name} "
+                                      f"(max abs difference {err}; criterion={case['criterion']}, H={case['H']}, arch={case['arch']})",
+                                      observed=None if a is None else a.flatten()[:8], expected=None if b is None else b.flatten()[:8],
+                                      block=mini)
+                        break
+            ctx.tick(n, nontrivial=n)
+            ctx.add("lazy_first_call_worlds", 1)
+            ctx.outcome(("lazy", case["fm"], case["criterion"], round(float(loss_a), 9)))
+    finally:
+        torch.set_default_dtype(d0)
 
 
 @family
@@ -704,6 +911,7 @@ def run(ctx):
     ctx.alphabet("H", [1, 2])
     ctx.alphabet("n_times", [1, 2, 3])
     ctx.alphabet("module_mode", ["train", "eval"])
+    ctx.alphabet("history_before_gradient", {"none": []} | HISTORIES)
     ctx.alphabet("model", list(MODELS) + list(BANDS) + ["ww:pre", "ww:mo", "mlp_frozen_first"])
     extra = ctx.extra_symbol("spot", [0.7, 1.1, 1.25, 1.4])
     if ctx.quick:
@@ -731,12 +939,22 @@ def run(ctx):
                       "paths": ["A2T5"]}, wseed)
         q5 += [dict(c, mode="eval") for c in _cases({"criterion": ["oce"], "fm": ["ww", "prev"], "cost": [0.01], "H": [1],
                                                      "model": ["ww:mo", "mlp_frozen_first"], "paths": ["A2T5"]}, wseed)]
-        q3 = q3 + q4 + q5
+        # Q6: operation histories on the same hedger before the gradient is taken
+        q6 = []
+        for hist in HISTORIES:
+            for c in _cases({"criterion": ["oce", "erm", "es"], "fm": ["vec", "mo_prev"], "cost": [0.01], "H": [1],
+                             "model": ["mlp", "mlp_frozen_first"], "paths": ["A2T5"]}, wseed):
+                q6.append(dict(c, history=hist))
+        q3 = q3 + q4 + q5 + q6
         for chunk in _chunks(q1 + q2 + q3, 16):
             ctx.run("grad_fd", {"cases": chunk})
         ng = _cases({"criterion": list(CRITERIA), "fm": ["vec", "prev", "mo_vec"], "cost": [0.01], "H": [1, 2],
                      "model": ["mlp"], "paths": ["A2T5"]}, wseed)
         ctx.run("no_graph", {"cases": ng})
+        lz = [{"criterion": c, "fm": fm, "H": H, "k": wseed % 1000, "arch": arch, "paths": "A2T5"}
+              for c in ("erm", "es", "oce", "mse") for fm in ("vec", "prev", "mo_lazy") for H in (1, 2)
+              for arch in ([4, 32], [2, 4])]
+        ctx.run("lazy_first_call", {"cases": lz})
     else:
         ctx.alphabet("path_sets", PATH_SETS)
         ctx.alphabet("extra_spot_symbol(A4T3)", extra)
@@ -755,6 +973,13 @@ def run(ctx):
                           "paths": [ps]}, wseed)
             cs += [dict(c, mode="eval") for c in cs if c["criterion"] == "oce"]
             blocks += [{"cases": c} for c in _chunks(cs, 30)]
+        for ps in ("A3T4", "A2T6", "A5T3"):
+            cs = []
+            for hist in HISTORIES:
+                for c in _cases({"criterion": crits, "fm": ["vec", "prev", "mo_vec", "mo_prev"], "cost": [0.01], "H": [1, 2],
+                                 "model": ["mlp", "mlp_frozen_first", "linear"], "paths": [ps]}, wseed):
+                    cs.append(dict(c, history=hist))
+            blocks += [{"cases": c} for c in _chunks(cs, 30)]
         # ensemble means and module mode: full product with the feature modes on two path sets
         for ps in ("A3T4", "A2T6"):
             cs = []
@@ -766,6 +991,11 @@ def run(ctx):
         ctx.run_parallel("grad_fd", blocks, workers=min(_workers(), len(blocks)))
         ng = _cases({"criterion": crits, "fm": list(FMODES), "cost": [0.0, 0.01], "H": [1, 2],
                      "model": list(MODELS), "paths": ["A3T4", "A2T6"]}, wseed)
+        lz = [{"criterion": c, "fm": fm, "H": H, "k": (wseed + dk) % 100000, "arch": arch, "paths": ps}
+              for c in CRITERIA if not c.startswith("isoelastic") for fm in ("vec", "prev", "mo_lazy") for H in (1, 2)
+              for arch in ([4, 32], [2, 4], [1, 3]) for ps in ("A3T4", "A2T6") for dk in (0, 1, 2)]
+        lzb = [{"cases": c} for c in _chunks(lz, 120)]
+        ctx.run_parallel("lazy_first_call", lzb, workers=min(_workers(), len(lzb)))
         ngb = [{"cases": c} for c in _chunks(ng, 90)]
         ctx.run_parallel("no_graph", ngb, workers=min(_workers(), len(ngb)))
     for key in ("band_cells_clamp_active", "band_cells_clamp_inactive", "band_cells_inverted"):
